@@ -21,7 +21,8 @@ GammaDiscreteDistribution::GammaDiscreteDistribution(size_t n, double alpha, dou
   alpha_(alpha),
   beta_(beta),
   offset_(offset),
-  ga1_(1)
+  ga1_(1),
+  restriction_()
 {
   // We use a lower bound of 0.0001 for alpha and beta to prohibe errors due to computer
   // floating precision: if alpha is quite low (gamma -> constant), some classes
@@ -45,7 +46,8 @@ GammaDiscreteDistribution::GammaDiscreteDistribution(const GammaDiscreteDistribu
   alpha_(gdd.alpha_),
   beta_(gdd.beta_),
   offset_(gdd.offset_),
-  ga1_(gdd.ga1_)
+  ga1_(gdd.ga1_),
+  restriction_(gdd.restriction_)
 {}
 
 GammaDiscreteDistribution& GammaDiscreteDistribution::operator=(const GammaDiscreteDistribution& gdd)
@@ -55,6 +57,7 @@ GammaDiscreteDistribution& GammaDiscreteDistribution::operator=(const GammaDiscr
   beta_ = gdd.beta_;
   offset_ = gdd.offset_;
   ga1_ = gdd.ga1_;
+  restriction_ = gdd.restriction_;
 
   return *this;
 }
@@ -68,11 +71,26 @@ void GammaDiscreteDistribution::fireParameterChanged(const ParameterList& parame
   AbstractDiscreteDistribution::fireParameterChanged(parameters);
   alpha_ = getParameterValue("alpha");
   beta_ = getParameterValue("beta");
-  if (hasParameter("offset"))
+  if (hasParameter("offset") && getParameterValue("offset") != offset_)
+  {
     offset_ = getParameterValue("offset");
+    // The domain follows the offset, within the restrictions applied so far.
+    intMinMax_->setLowerBound(offset_, true);
+    *intMinMax_ &= restriction_;
+  }
   ga1_ = exp(RandomTools::lnGamma(alpha_ + 1) - RandomTools::lnGamma(alpha_));
 
   discretize();
+}
+
+/******************************************************************************/
+
+void GammaDiscreteDistribution::restrictToConstraint(const ConstraintInterface& c)
+{
+  const IntervalConstraint* pi = dynamic_cast<const IntervalConstraint*>(&c);
+  if (pi)
+    restriction_ &= *pi;
+  AbstractDiscreteDistribution::restrictToConstraint(c);
 }
 
 /******************************************************************************/
